@@ -109,6 +109,9 @@ pub const SITES: &[Site] = &[
     site!("turtle_subjects", site_turtle_subjects, 1500, 4000, "statements", "ser.turtle-pretty", all),
     site!("trig_graphs", site_trig_graphs, 1500, 4000, "named-graphs", "ser.trig-pretty", all),
     site!("turtle_chain", site_turtle_chain, 1500, 4000, "statements", "ser.turtle-pretty", all),
+    site!("turtle_chain_i0", site_turtle_chain_i0, 1500, 4000, "statements", "ser.turtle-pretty(indentation='')", all),
+    site!("trig_chain_tab", site_trig_chain_tab, 1500, 4000, "statements", "ser.trig-pretty(indentation=tab,named graph)", all),
+    site!("turtle_list_i0", site_turtle_list_i0, 1500, 4000, "list-items", "ser.turtle-pretty(indentation='')", all),
 ];
 
 pub fn find(name: &str) -> Option<&'static Site> {
@@ -701,6 +704,47 @@ fn site_turtle_chain(size: usize) -> Result<u64, String> {
     paint();
     match ser.serialize_graph(&g) {
         Ok(s) => Ok(count_sub(s.as_str(), "x:p").saturating_sub(1)),
+        Err(_) => Err("turtle".into()),
+    }
+}
+
+// ---- the same chain under other serializer CONFIGURATIONS (the property quantifies over them): empty
+// indentation (allowed; nothing that is derived from the indentation may bound the nesting) …
+#[inline(never)]
+fn site_turtle_chain_i0(size: usize) -> Result<u64, String> {
+    use sophia_turtle::serializer::turtle::TurtleSerializer;
+    let g: Vec<[SimpleTerm<'static>; 3]> = chain(size, None).into_iter().map(|(t, _)| t).collect();
+    let mut ser = TurtleSerializer::new_stringifier_with_config(pretty().with_indentation(""));
+    paint();
+    match ser.serialize_graph(&g) {
+        Ok(s) => Ok(count_sub(s.as_str(), "x:p").saturating_sub(1)),
+        Err(_) => Err("turtle".into()),
+    }
+}
+
+// … and TriG, tab indentation, the chain in a named graph
+#[inline(never)]
+fn site_trig_chain_tab(size: usize) -> Result<u64, String> {
+    use sophia_turtle::serializer::trig::TrigSerializer;
+    let d = chain(size, Some(ic("x:g")));
+    let mut ser = TrigSerializer::new_stringifier_with_config(pretty().with_indentation("\t"));
+    paint();
+    match ser.serialize_dataset(&d) {
+        Ok(s) => Ok(count_sub(s.as_str(), "x:p").saturating_sub(1)),
+        Err(_) => Err("trig".into()),
+    }
+}
+
+// ---- one list of `size` items, empty indentation
+#[inline(never)]
+fn site_turtle_list_i0(size: usize) -> Result<u64, String> {
+    use sophia_turtle::serializer::turtle::TurtleSerializer;
+    let d = list_quads(size);
+    let g: Vec<[SimpleTerm<'static>; 3]> = d.into_iter().map(|(t, _)| t).collect();
+    let mut ser = TurtleSerializer::new_stringifier_with_config(pretty().with_indentation(""));
+    paint();
+    match ser.serialize_graph(&g) {
+        Ok(s) => Ok(count_sub(s.as_str(), "\"v")),
         Err(_) => Err("turtle".into()),
     }
 }
